@@ -167,6 +167,11 @@ impl NISP2Commitments {
             d_2,
         } = self;
 
+        // one response per hidden attribute, no more and no fewer
+        if d.len() != unrevealed_message_indexes.len() {
+            return false;
+        }
+
         let inv_C1 = Integer::from(
             c1.value
                 .pow_mod_ref(&(-Integer::from(1) * challenge), n1)
@@ -603,6 +608,11 @@ impl NISPSignaturePoK {
     {
         if a_bases.0.len() < n_signed_messages && commitment_pk.g_bases.len() < n_signed_messages {
             panic!("Not enough a_bases OR g_bases for the number of attributes");
+        }
+
+        // one response per hidden attribute, no more and no fewer
+        if self.s_5.len() != unrevealed_message_indexes.len() {
+            return false;
         }
 
         let mut t_Cx = Integer::from(1);
